@@ -36,6 +36,19 @@ Theorem C04_fresh_agrees : forall w g m, RRel w g ->
 Proof. exact rfresh_agrees. Qed.
 Print Assumptions C04_fresh_agrees.
 
+(* iter_arrays(start, end, step) for ANY integers: the subarrays at range(start, end or len, step) in
+   that order; IndexError as soon as an index falls outside -len .. len-1; ValueError for step 0 *)
+Theorem C04_iter_arrays : forall w g start stop step, RRel w g ->
+  riter_arrays (fst w) (snd w) start stop step =
+  if step =? 0 then Err ValueError
+  else collect (map (fun i => match g_getitem g i with Some sub => Ok (concat sub) | None => Err IndexError end)
+                    (py_range start (match stop with Some e => e | None => Z.of_nat (length (g_subs g)) end) step)).
+Proof. exact riter_arrays_spec. Qed.
+Print Assumptions C04_iter_arrays.
+Example C04_py_range : py_range 0 7 3 = [0; 3; 6] /\ py_range 5 (-1) (-2) = [5; 3; 1] /\ py_range 2 2 1 = [] /\
+                       py_range (-2) 1 1 = [-2; -1; 0] /\ py_range 0 1 5 = [0].
+Proof. vm_compute. repeat split; reflexivity. Qed.
+
 (* the requested index type is the one stored (part of RRel: the indices array is
    related to si_of g whose type is g_ity g), for the 7 documented types -- the list
    the code checks is the GENERATED one *)
